@@ -254,7 +254,7 @@ func init() {
 		Assumptions: []string{"EncodeSW 'reports success' is read as: returned error nil AND the slice writer's accumulated error nil (the SliceWriter contract)", "objects with a lazily written mdat payload are excluded: their Size() includes the payload that Encode does not write, by documented design (C08)",
 			"Size() beforehand is compared only for decoded objects without trun optimisation"},
 		Real: realLib, Stub: stubIO, RealNoFault: realNoFault,
-		Runs:       map[string]int{"quick": 8000, "thorough": 600000},
+		Runs:       map[string]int{"quick": 60000, "thorough": 3000000},
 		Setup:      setupObjects,
 		Run:        c02Run,
 		WantFaults: []string{"write-eio", "write-full", "slice-short"},
